@@ -403,6 +403,10 @@ resolve_size(Model& m, const std::string& spec)
         return clampn(toend + 1);
     if (spec == "cap-1")
         return cap - 1;
+    if (spec == "cap")
+        return cap;
+    if (spec == "cap+3")
+        return cap + 3;
     if (spec == "tail" || spec == "tail-1" || spec == "tail+1") {
         // ring address of the slowest reader's first unconsumed byte
         long best = -1;
@@ -464,6 +468,10 @@ struct ChanHarness : Harness
     // --------------------------------------------------------- generation
     static std::string gen_size(Rng& g, size_t cap)
     {
+        // a request that can never fit: must be turned down at once (and must
+        // leave the channel usable)
+        if (g.chance(0.03))
+            return g.chance(0.5) ? "cap" : "cap+3";
         int k = (int)g.below(20);
         switch (k) {
             case 0:
@@ -704,7 +712,7 @@ struct ChanHarness : Harness
                 if (mb->result) {
                     on_write_mapped(*m, (uint8_t*)mb->result, wlen_req);
                 } else {
-                    if (m->accepting)
+                    if (m->accepting && wlen_req < m->cap)
                         oracle_fail("C03.null_while_accepting",
                                     "write_map(%zu) returned no region although "
                                     "writes are accepted and %zu < capacity %zu",
@@ -729,6 +737,16 @@ struct ChanHarness : Harness
                 sim_pthread_mutex_unlock(&mb->mu);
                 settle();
                 collect();
+                if (wlen_req >= m->cap) {
+                    probe("reach.oversize_request");
+                    if (mb->busy || m->pending)
+                        oracle_fail("C03.oversize_request_not_refused",
+                                    "write_map(%zu) on a ring of %zu bytes %s "
+                                    "(a request that can never fit must "
+                                    "return no region)",
+                                    wlen_req, m->cap,
+                                    mb->busy ? "blocks" : "was granted");
+                }
                 if (mb->busy) {
                     probe("reach.writer_blocked");
                     if (!m->accepting)
@@ -959,6 +977,15 @@ struct ChanHarness : Harness
                                 "soon as it was woken spuriously: its request "
                                 "fitted but no notification reached it "
                                 "(cap=%zu)",
+                                n, m->cap);
+                if (!p && n >= m->cap) {
+                    probe("reach.oversize_request");
+                    continue; // can never fit: correctly turned down
+                }
+                if (p && n >= m->cap)
+                    oracle_fail("C03.oversize_request_not_refused",
+                                "write_map(%zu) on a ring of %zu bytes was "
+                                "granted",
                                 n, m->cap);
                 if (!p) {
                     if (!m->refuse_invoked)
